@@ -20,7 +20,7 @@ ASSUMPTIONS = [
     "node lists of <= 3 nodes (linked lists cannot carry loop contracts in CBMC)",
 ]
 HAND_LEMMAS = ["acyclicity: every lattice_link call of fsg_search_lattice joins src to dest with dest->sf == ef + 1 > src->sf (NOT under contract here), so start frames strictly increase along links"]
-NOT_COVERED = ["the link-building loops of fsg_search_lattice (time adjacency t -> t+1, grammar adjacency of linked words)", "find_start_node, the multi-candidate branch of find_end_node, unreachable-node removal", "first-best path contained in the lattice", "single start / end node"]
+NOT_COVERED = ["the link-building loops of fsg_search_lattice (time adjacency t -> t+1, grammar adjacency of linked words)", "find_start_node, the multi-candidate branch of find_end_node, unreachable-node removal", "first-best path contained in the lattice", "single start / end node", "the items above are NOT under contract; on real decodes they are exercised only by the bounded native run e2e_invariants (grammar adjacency of linked words is NOT checked there either) -- never counted as proved"]
 CLAIM = dict(
     text="Local facts only: asking for the lattice again over the same number of frames returns the cached object and touches nothing (proved, empty frame); node identity is the full key (start frame, word, grammar state): new_node never duplicates a key, a differing grammar state gives a distinct node, an existing node only widens its end-frame range and keeps its best exit score; lattice_link keeps one link per ordered node pair with the best score in both forward and reverse lists (bounded: <= 3 nodes); when no word ends in the last frame the end node chosen is the node with entries that exits last (bounded). Global well-formedness (acyclic, single start/end, every node on a path, grammar paths) is NOT decided.",
     note="cache identity proof + bounded node/link checks; link-building loops, start/end node selection, reachability pruning not covered; trusted: CBMC 6.11; end-to-end invariants on ~12 real decodes by a bounded native run (native/e2e_invariants.c), never counted as proved",
